@@ -212,6 +212,7 @@ func (p *Pool) Touch(m Member, h *Handle) {
 			p.mu.Unlock()
 			verifhook.Yield(p, "evict-before-releasenow")
 			err := victimEnt.m.ReleaseNow()
+			verifhook.Yield(p, "evict-after-releasenow")
 			p.mu.Lock()
 			if err != nil {
 				p.evictionFailures++
